@@ -7,7 +7,7 @@ from vt import core, ref as R, build as B, sat
 REF_LIMIT = {'quick': 250, 'thorough': 1500}
 # designs per stratum in a quick run (stratified over shape classes, see gen.thin); thorough runs take whole strata
 # cheap checks take (nearly) whole strata even in a quick run
-QUICK_CAPS_BIG = {'S1p': 400, 'S1xa': 150, 'S1': 900, 'S1x': 250, 'S2': 550, 'S3': 400, 'S4': 170, 'S5': 190, 'S6': 50, 'S9': 450}
+QUICK_CAPS_BIG = {'S3s': 200, 'S1p': 400, 'S1xa': 150, 'S1': 900, 'S1x': 250, 'S2': 550, 'S3': 400, 'S4': 170, 'S5': 190, 'S6': 50, 'S9': 450}
 QUICK_CAPS_MID = {'S1p': 200, 'S1xa': 100, 'S1': 450, 'S1x': 120, 'S2': 300, 'S3': 250, 'S4': 120, 'S5': 140, 'S6': 50, 'S9': 300}
 QUICK_CAPS = {'S1p': 120, 'S1xa': 60, 'S1': 220, 'S1x': 60, 'S2': 160, 'S3': 200, 'S4': 90, 'S5': 80, 'S6': 46, 'S9': 200}
 
@@ -64,12 +64,26 @@ def design_sig(spec):
     # a crossed within-trial derived factor one of whose inputs is itself derived (or is rewritten to a derived factor)
     xwd = any('deps' in fm[n] and fm[n]['width'] == 1 and any('deps' in fm[dn] or desugared(dn) for dn in fm[n]['deps'])
               for n in in_any if n in fm)
+    # a run-length constraint whose factor has stride > 1 (blank trials between its levels)
+    kstride = False
+
+    def walk3(x):
+        nonlocal kstride
+        for c in x.get('constraints', []):
+            if c['c'] in ('AtMostKInARow', 'AtLeastKInARow', 'ExactlyKInARow') and fm.get(c.get('factor'), {}).get('stride', 1) > 1:
+                kstride = True
+        for k in ('block', 'outer', 'inner'):
+            if k in x:
+                walk3(x[k])
+        for y in x.get('blocks', []):
+            walk3(y)
+    walk3(b)
     kinds = set()
     for n in excl:
         kinds.add(('crossed_' if n in in_any else 'uncrossed_') + ('derived' if 'deps' in fm[n] else 'basic'))
     return {'ops': '+'.join(ops), 'cons': '+'.join(sorted(set(cons))) or '-',
             'derived': '+'.join(sorted(set(f['kind'] for f in d))) or '-', 'weighted': weighted,
-            'rcc': all(rccs), 'xwd': xwd, 'excl': '+'.join(sorted(kinds)) or '-'}
+            'rcc': all(rccs), 'xwd': xwd, 'excl': '+'.join(sorted(kinds)) or '-', 'kstride': kstride}
 
 
 def brief(spec):
